@@ -1411,3 +1411,32 @@ macro_rules! composite_pixels_harness { ($name:ident, $ck:expr, $layer:expr, $so
 // @ob id=K.composite_pixels_plain props=C02,C03 kind=bounded:surface=3x2,concrete-geometry tier=quick timeout=900 fns=DrawTarget::composite,DrawTarget::choose_blitter,ShaderMaskBlitter::blit_span
 // @+ desc="pixel level, real blitters, SrcOver, no clip, no layer: every surface pixel (symbolic contents and coverage) equals over_in(src, prev, coverage) inside rect ∩ surface when coverage != 0 and is bit-identical otherwise; kernels arbitrary functions"
 composite_pixels_harness!(k_composite_pixels_plain, 0, false, true);
+
+// ------------------------------------------------------------------ degenerate stroke / dash parameters (C07 #7)
+// @ob id=K.stroke_dash_guards props=C07 kind=complete unwind_complete=yes tier=quick timeout=600 fns=stroke_to_path,dash_path
+// @+ desc="degenerate stroke parameters are harmless: stroke_to_path returns the empty path for every width <= 0 (any style, before touching the path); dash_path returns the empty path, without reading dash_array[0], for every dash array of 0..3 entries whose total is not > 0 (zeros, negative sums, NaN) and any dash offset (NaN, infinite included)"
+#[kani::proof]
+#[kani::unwind(6)]
+fn k_stroke_dash_guards() {
+    // the guards sit before any use of the path, so an empty path keeps the (infeasible) rest of the functions small
+    let path = Path { ops: Vec::new(), winding: Winding::NonZero };
+    let w: f32 = kani::any();
+    kani::assume(w <= 0.);
+    let style = StrokeStyle { width: w, cap: LineCap::Round, join: LineJoin::Miter, miter_limit: kani::any(), dash_array: Vec::new(), dash_offset: kani::any() };
+    let s = stroke_to_path(&path, &style);
+    assert!(s.ops.len() == 0, "non-positive width strokes nothing");
+    let d: [f32; 3] = kani::any();
+    let n: usize = kani::any();
+    kani::assume(n <= 3);
+    let mut total = 0f32;
+    let mut i = 0;
+    while i < 3 { if i < n { total += d[i]; } i += 1; }
+    if n % 2 == 1 { total *= 2.; }
+    kani::assume(!(total > 0.));
+    let off: f32 = kani::any();
+    let r = dash_path(&path, &d[..n], off);
+    assert!(r.ops.len() == 0, "a dash array whose total is not positive disables the stroke");
+    kani::cover!(n == 0);
+    kani::cover!(n == 2 && total.is_nan());
+    kani::cover!(n == 3 && total < 0.);
+}
